@@ -326,6 +326,39 @@ func passCase(r *evid.Run, rg *rand.Rand, i int, cs int64) {
 		ed++
 	}
 	r.Hit("edited_params_rejected", ed)
+	// cost parameters (N, r, p: bytes 64..87 of the blob): any edit changes the derived
+	// key or makes scrypt refuse; the right passphrase must not be accepted silently
+	for j := 64; j < 88; j++ {
+		b := append([]byte(nil), blob...)
+		b[j] ^= 1 << uint(rg.Intn(8))
+		var s6 snacl.SecretKey
+		if err := s6.Unmarshal(b); err != nil {
+			continue
+		}
+		if s6.Parameters.N > 1<<14 || s6.Parameters.R > 64 || s6.Parameters.P > 64 || s6.Parameters.N < 0 || s6.Parameters.R <= 0 || s6.Parameters.P <= 0 {
+			continue // would only cost memory/time
+		}
+		p := append([]byte(nil), orig...)
+		if err := s6.DeriveKey(&p); err == nil {
+			r.Violation("edited-params-accepted", fmt.Sprintf("passphrase accepted although cost parameter byte %d was altered (N=%d r=%d p=%d)", j, s6.Parameters.N, s6.Parameters.R, s6.Parameters.P), "passphrase", cs, nil)
+			break
+		}
+		r.Hit("edited_cost_params_rejected", 1)
+	}
+	// unusable cost parameters must be refused at creation, never yield a key
+	for _, bad := range [][3]int{{0, 8, 1}, {1, 8, 1}, {3, 8, 1}, {1000, 8, 1}, {16, 1 << 15, 1 << 15}} /* r=0 / p=0 panic inside x/crypto/scrypt itself: not generated */ {
+		p := append([]byte(nil), orig...)
+		k, err := snacl.NewSecretKey(&p, bad[0], bad[1], bad[2])
+		if err == nil {
+			what := fmt.Sprintf("NewSecretKey with unusable scrypt parameters N=%d r=%d p=%d returned a key instead of an error", bad[0], bad[1], bad[2])
+			if k != nil && k.Key != nil && *k.Key == (snacl.CryptoKey{}) {
+				what += " (the all-zero key, for every passphrase)"
+			}
+			r.Violation("unusable-params-accepted", what, "passphrase", cs, nil)
+			break
+		}
+		r.Hit("unusable_cost_params_refused", 1)
+	}
 	r.Case(fmt.Sprintf("pass/%x", orig), rej > 0)
 	if r.WantSample() {
 		r.Sample(map[string]any{"kind": "passphrase", "passphrase_hex": fmt.Sprintf("%x", orig), "near_misses_rejected": rej, "malformed_lengths_rejected": ml, "edited_param_bytes_rejected": ed})
